@@ -18,6 +18,10 @@ namespace ucifmt
 struct Fmt
 {
     bool perft = false, printboard = false, hash = false, staticeval = false;
+    // what this engine leaves on the board after `ucinewgame` (measured, not assumed): 1 = the start position,
+    // 2 = the position that was there before, 0 = could not be determined (then the session model treats the board as
+    // unknown until the next `position` command)
+    int newgame_board = 0;
 };
 
 inline bool is_move_line(const std::string& l, std::string* mv = nullptr, uint64_t* n = nullptr)
@@ -91,6 +95,21 @@ inline const Fmt& fmt(Report* rep = nullptr)
             F.staticeval = R.out.snapshot(size_t(li))[0].substr(7) == engine::score2str(fresh->score(pos));
         }
     }
+    if (F.printboard)
+    {
+        const std::string other = "r3k2r/8/8/8/8/8/8/R3K2R b KQkq - 3 20";
+        R.send("position fen " + other);
+        R.send("ucinewgame");
+        size_t m = R.out.size();
+        R.send("printboard");
+        long li = R.out.wait_line(m, [](const std::string& l) { return l == "White to move" || l == "Black to move"; }, 30000);
+        if (li >= 0)
+            for (auto& l : R.out.snapshot(m))
+            {
+                if (l == "Fen: \"" + startFen + "\"") F.newgame_board = 1;
+                if (l == "Fen: \"" + other + "\"") F.newgame_board = 2;
+            }
+    }
     {
         size_t m = R.out.size();
         R.send("isready");
@@ -102,6 +121,7 @@ inline const Fmt& fmt(Report* rep = nullptr)
         rep->cls(F.printboard ? "ucifmt:printboard_recognised" : "ucifmt:printboard_NOT_recognised");
         rep->cls(F.hash ? "ucifmt:hash_recognised" : "ucifmt:hash_NOT_recognised");
         rep->cls(F.staticeval ? "ucifmt:staticeval_recognised" : "ucifmt:staticeval_NOT_recognised");
+        rep->cls(F.newgame_board == 1 ? "ucifmt:ucinewgame_resets_the_board" : F.newgame_board == 2 ? "ucifmt:ucinewgame_keeps_the_board" : "ucifmt:ucinewgame_board_unknown");
     }
     return F;
 }
